@@ -8,6 +8,7 @@ import (
 	"encoding/json"
 	"fmt"
 	"os"
+	"path/filepath"
 	"regexp"
 	"sort"
 	"strconv"
@@ -67,6 +68,8 @@ type GenesisOpts struct {
 	ExtraAccts  int               `json:"extra"`  // additional named accounts a5..
 	CustomGen   map[string]string `json:"custom"` // module name -> genesis JSON override (aol/did/pnft)
 	InitialTime int64             `json:"-"`
+	DiskDB      bool              `json:"diskdb"` // goleveldb under the run's scratch home instead of MemDB
+	NoFastNode  bool              `json:"nofast"` // the operator's --iavl-disable-fastnode
 }
 
 type Chain struct {
@@ -104,10 +107,16 @@ func absTime(nanos int64) int {
 }
 
 func appOptions(home string) simtestutil.AppOptionsMap {
-	return simtestutil.AppOptionsMap{"home": home, "crisis.skip-genesis-invariants": true}
+	o := simtestutil.AppOptionsMap{"home": home, "crisis.skip-genesis-invariants": true}
+	if os.Getenv("VERIF_IAVL_NOFAST") != "" { // experiment switch: the node operator's --iavl-disable-fastnode
+		o["iavl-disable-fastnode"] = true
+	}
+	return o
 }
 
 // newApp builds the application and loads the latest version itself (app.New with loadLatest=true calls os.Exit on a load error).
+var noFastNode bool // set per chain (one chain per process at a time in the commands that use it)
+
 func newApp(db dbm.DB, home string, logger log.Logger) *app.App {
 	a, err := newAppErr(db, home, logger)
 	if err != nil {
@@ -117,7 +126,11 @@ func newApp(db dbm.DB, home string, logger log.Logger) *app.App {
 }
 
 func newAppErr(db dbm.DB, home string, logger log.Logger) (*app.App, error) {
-	a := app.New(logger, db, nil, false, appOptions(home), baseapp.SetChainID(chainID))
+	opts := []func(*baseapp.BaseApp){baseapp.SetChainID(chainID)}
+	if os.Getenv("VERIF_IAVL_NOFAST") != "" || noFastNode {
+		opts = append(opts, baseapp.SetIAVLDisableFastNode(true))
+	}
+	a := app.New(logger, db, nil, false, appOptions(home), opts...)
 	if err := a.LoadLatestVersion(); err != nil {
 		return nil, fmt.Errorf("error on loading last version: %w", err)
 	}
@@ -131,7 +144,15 @@ func NewChain(opts GenesisOpts) (*Chain, error) {
 	if err != nil {
 		return nil, err
 	}
-	c := &Chain{DB: dbm.NewMemDB(), Home: home, Opts: opts, Accts: map[string]*Acct{}, byBech: map[string]string{}, Logger: log.NewNopLogger()}
+	var db dbm.DB = dbm.NewMemDB()
+	if opts.DiskDB {
+		db, err = dbm.NewGoLevelDB("application", filepath.Join(home, "data"))
+		if err != nil {
+			return nil, err
+		}
+	}
+	noFastNode = opts.NoFastNode
+	c := &Chain{DB: db, Home: home, Opts: opts, Accts: map[string]*Acct{}, byBech: map[string]string{}, Logger: log.NewNopLogger()}
 	u2 := opts.Unit2
 	if u2 == "" {
 		u2 = "1"
@@ -204,6 +225,9 @@ func (c *Chain) addSpecial(name string, addr sdk.AccAddress) {
 }
 
 func (c *Chain) Close() {
+	if c.Opts.DiskDB && c.DB != nil {
+		c.DB.Close()
+	}
 	if c.Home != "" {
 		os.RemoveAll(c.Home)
 	}
